@@ -3,7 +3,7 @@
 //! Part (a), in-process: the fd hand-off codec (`ScmSocket::send_listeners` /
 //! `receive_listeners`) round-trips every listener set up to the documented fd limit, keeping
 //! address/kind/order and the identity of every open file, without leaking descriptors.
-//! Part (b), wire lab (hand-over under traffic), lives in `c10_lab` once the lab exists.
+//! Part (b), wire lab (soft stop and hand-over under traffic), lives in `c10_lab` (sub-check `softstop`).
 
 use std::{
     net::SocketAddr,
@@ -312,6 +312,11 @@ fn run_case(case: &Case, rep: &mut CaseReport) -> Result<(), engine::Failure> {
 }
 
 pub fn run(args: &Args) -> i32 {
+    if args.shard.is_some() {
+        // a lab child (the only lab sub-check of this property)
+        let st = super::c10_lab::child(args, args.cases(300, 3_000));
+        return engine::shard::child_finish(args, &st);
+    }
     let mut ev = Evidence::new(args, "exploration");
     ev.rule(
         "scm",
@@ -322,6 +327,13 @@ pub fn run(args: &Args) -> i32 {
         "same generator, single-threaded, with /proc/self/fd counted before and after: a successful or failed hand-off within the limit leaves no descriptor behind once the harness closed what it owns.",
     );
     ev.assume("the master-side orchestration (fork/exec) is not run; the codec and the fd identity are");
+    ev.rule(super::c10_lab::SUB, super::c10_lab::rule());
+    ev.assume("softstop: the harness plays the main process (ReturnListenSockets, receive_listeners, SoftStop over the real command channel and SCM socket); no successor worker is started; requests whose head is only partly received at the stop, HTTP/2 streams, TLS listeners and TCP pipes in flight are not generated");
+    ev.floor(super::c10_lab::SUB, "2+_in_flight", 0.4);
+    ev.floor(super::c10_lab::SUB, "handover", 0.25);
+    ev.floor(super::c10_lab::SUB, "expect_100_continue", 0.15);
+    ev.floor(super::c10_lab::SUB, "2+_listeners", 0.4);
+    ev.floor(super::c10_lab::SUB, "backend_write_blocked_at_stop", 0.05);
     ev.floor("scm", "190..200_listeners", 0.005);
     ev.floor("scm", "manifest_over_4096_bytes", 0.05);
     let cases = args.cases(3_000, 60_000);
@@ -341,5 +353,6 @@ pub fn run(args: &Args) -> i32 {
         }),
         check,
     );
+    engine::shard::run_sharded(&mut ev, args, super::c10_lab::SUB, 16, std::time::Duration::from_secs(args.tier.pick(600, 3600)));
     ev.finish()
 }
